@@ -192,7 +192,9 @@ def check(prop, tier, seed):
         run.evaluations += 1
         res = o["res"]
         if res["t"] != "ok":
-            raise ToolError("pattern grammar not accepted: %s\n%s" % (json.dumps(res)[:300], src))
+            # C06 speaks about what IS emitted; whether this file should have been accepted is C04/C09/C10's business
+            run.notes["pattern_grammars_rejected_by_generate"] = run.notes.get("pattern_grammars_rejected_by_generate", 0) + 1
+            continue
         run.traces += 1
         items, sig = rustparse.parse_items(res["rust"])
         why = compare_item(items, p["decl"], p["shape"], syms, ttypes)
